@@ -132,6 +132,10 @@ def typeof(t, fi, st, src_level, notes):
             if c[0] == 'cmp' and c[1] in ('==', '>', '<', '>=', '<='):
                 a = typeof(c[2], fi, st, src_level, notes)
                 b = typeof(c[3], fi, st, src_level, notes)
+                if a[0] not in ('vec', 'set') and b[0] in ('vec', 'set'):
+                    # the vector may stand on either side of the comparison
+                    c = ('cmp', {'<': '>', '>': '<', '<=': '>=', '>=': '<=', '==': '=='}[c[1]], c[3], c[2])
+                    a, b = b, a
                 if a[0] == 'vec' and c[1] == '==':
                     if b[0] in ('scalar', 'set') and b[1] != a[2]:
                         raise TypeErr('%s holds %s indices but is compared with a %s index' % (show(c[2]), a[2], b[1]))
